@@ -733,7 +733,8 @@ class Server():
             if ca in self.servant.ixes:
                 self.servant.ixes[ca].serviceSends()  #  send final bytes to socket
             del self.reps[ca]
-        self.servant.removeIx(ca)
+        if ca in self.servant.ixes:  # not already removed by servant on socket error
+            self.servant.removeIx(ca)
 
 
     def serviceConnects(self):
@@ -760,6 +761,10 @@ class Server():
         Service pending requestants
         """
         for ca, requestant in list(self.reqs.items()):
+            if ca not in self.servant.ixes:  # removed by servant on socket error
+                self.closeConnection(ca)  # so drop its requestant and responder
+                continue
+
             if requestant.parser:
                 try:
                     requestant.parse()
@@ -801,8 +806,8 @@ class Server():
         Service pending responders
         """
         for ca, responder in list(self.reps.items()):
-            if responder.closed:
-                self.closeConnection(ca)
+            if responder.closed or ca not in self.servant.ixes or ca not in self.reqs:
+                self.closeConnection(ca)  # also when removed by servant on socket error
                 continue
 
             if not responder.ended:
@@ -1178,7 +1183,8 @@ class BareServer():
         """
         Close and remove connection and associated steward given by ca
         """
-        self.servant.removeIx(ca)
+        if ca in self.servant.ixes:  # not already removed by servant on socket error
+            self.servant.removeIx(ca)
         del self.stewards[ca]
 
 
@@ -1206,6 +1212,10 @@ class BareServer():
         Service pending requestants and responders
         """
         for ca, steward in list(self.stewards.items()):  # closeConnection deletes
+            if ca not in self.servant.ixes:  # removed by servant on socket error
+                self.closeConnection(ca)  # so drop its steward
+                continue
+
             if not steward.waited:
                 steward.requestant.parse()
 
